@@ -756,6 +756,13 @@ fn handle_next(
 
             let b = bot.borrow();
             let t = top.borrow();
+            // The two incoming edges must be direct neighbours (bottom below top),
+            // otherwise the input is self-overlapping.
+            let adjacent = b.t_partner.as_ref().map_or(false, |e| Rc::ptr_eq(e, top))
+                && t.b_partner.as_ref().map_or(false, |e| Rc::ptr_eq(e, bot));
+            if !adjacent {
+                return Err(TriangulationError::Overlap(ptype, p));
+            }
             // Proper end
             if b.bof_in_interval {
                 debug!("- Proper {ptype:?}");
@@ -773,7 +780,7 @@ fn handle_next(
                         bb.borrow_mut().backchain = bc.clone();
                         tt.borrow_mut().backchain = bc;
                     }
-                    _ => unreachable!(),
+                    _ => return Err(TriangulationError::Overlap(ptype, p)),
                 }
             }
 
